@@ -372,3 +372,130 @@ def run_reward_flag(tier, log, seed):
     else:
         res.update(status="pass")
     return res
+
+
+# ------------------------------------------------------------------------------------------------ C20 / C21
+LAYERS = [
+    # (layer id, crate, source file, impl-line regex, trait, inner query regex)
+    ("WrapDatabaseRef:Database", "primitives", "crates/primitives/src/db.rs", r"^impl<T: DatabaseRef> Database for WrapDatabaseRef<T>", "has_storage", r"has_storage_ref"),
+    ("DatabaseComponents:Database", "primitives", "crates/primitives/src/db/components.rs", r"^impl<S: State, BH: BlockHash> Database for DatabaseComponents<S, BH>", "has_storage", r"has_storage"),
+    ("DatabaseComponents:DatabaseRef", "primitives", "crates/primitives/src/db/components.rs", r"^impl<S: StateRef, BH: BlockHashRef> DatabaseRef for DatabaseComponents<S, BH>", "has_storage_ref", r"has_storage"),
+    ("CacheDB:Database", "revm", "crates/revm/src/db/in_memory_db.rs", r"^impl<ExtDB: DatabaseRef> Database for CacheDB<ExtDB>", "has_storage", r"has_storage_ref"),
+    ("CacheDB:DatabaseRef", "revm", "crates/revm/src/db/in_memory_db.rs", r"^impl<ExtDB: DatabaseRef> DatabaseRef for CacheDB<ExtDB>", "has_storage_ref", r"has_storage_ref"),
+    ("State:Database", "revm", "crates/revm/src/db/states/state.rs", r"^impl<DB: Database> Database for State<DB>", "has_storage", r"has_storage"),
+]
+
+
+def impl_methods(funcs, relpath, line):
+    out = {}
+    pat = re.compile(r"<impl at %s:%d:\d+: \d+:\d+>::(\w+)$" % (re.escape(relpath), line))
+    for n, fl in funcs.items():
+        m = pat.search(n)
+        if m:
+            out[m.group(1)] = fl[0]
+    return out
+
+
+def run_has_storage(tier, log, seed):
+    duo = smt.Duo(timeout_s=30)
+    failures, inconcl, samples = [], [], []
+    parsed = {}
+    for lid, crate, rel, rx, meth, inner in LAYERS:
+        if crate not in parsed:
+            parsed[crate] = mir.parse_functions(mir.dump(crate, log))
+        funcs = parsed[crate]
+        src = open("/repo/" + rel).read().split("\n")
+        lines = [i + 1 for i, l in enumerate(src) if re.search(rx, l)]
+        if len(lines) != 1:
+            inconcl.append(f"{lid}: impl header not found exactly once in {rel}")
+            continue
+        methods = impl_methods(funcs, rel, lines[0])
+        if "basic" not in methods and "basic_ref" not in methods:
+            inconcl.append(f"{lid}: MIR of impl block at {rel}:{lines[0]} not found")
+            continue
+        if meth not in methods:
+            ans, why = "false", f"no `{meth}` in the impl block at {rel}:{lines[0]}: the trait default `Ok(false)` answers"
+        else:
+            body = methods[meth].text
+            if re.search(inner + r"\(", body) and "-> [return" in body:
+                ans, why = "under", f"`{meth}` calls the wrapped source's {inner}"
+            else:
+                ans, why = "unk", f"`{meth}` exists but does not visibly forward"
+        decls = ["(declare-const under Bool)", "(declare-const unk Bool)"]
+        v, model, detail = duo.check(decls, [f"(not (= {ans} under))"], want_model_of=("under",))
+        samples.append(f"{lid}: {why} -> {v}")
+        log(f"[e3] {samples[-1]}")
+        if v == "unsat":
+            continue
+        if v != "sat":
+            inconcl.append(f"{lid}: {detail}")
+            continue
+        st, out = native.call("debug", "has_storage_layer", lid, log=log)
+        desc = f"has_storage through {lid} ignores the wrapped data ({why})"
+        if st == "ok" and out == "underlying=true answer=false":
+            failures.append(dict(id=f"has_storage-{lid}", reproduced=True, description=desc + " | native: wrapped source says true, layer answers false"))
+        elif st == "ok":
+            failures.append(dict(id=f"has_storage-{lid}", reproduced=False, description=desc + f" | native: {out}"))
+        else:
+            inconcl.append(f"{lid}: native scenario failed: {st} {out}")
+    # C21 (b): the flag handed to the collision check is the database's answer for the created address
+    funcs = parsed.get("revm") or mir.parse_functions(mir.dump("revm", log))
+    for fname in ("make_create_frame", "make_eofcreate_frame"):
+        cands = [f for n, fl in funcs.items() for f in fl if n.endswith("::" + fname)]
+        if len(cands) != 1:
+            inconcl.append(f"{fname}: MIR body not found")
+            continue
+        fn = cands[0]
+        site = None
+        for b in fn.blocks.values():
+            c = mir.call_of(b.term or "")
+            if c and re.search(r"JournaledState::create_account_checkpoint$", re.sub(r"::<.*?>", "", c[1])):
+                site = mir.split_top(c[2])
+        if not site:
+            inconcl.append(f"{fname}: no call to create_account_checkpoint")
+            continue
+        # the bool argument (address_has_storage) is the last bool-typed operand: resolve it to the has_storage call
+        term, why = "unk", "not resolved"
+        for op in site:
+            m = re.match(r"^(?:move|copy) (_\d+)$", op)
+            if not m or fn.locals.get(m.group(1)) != "bool":
+                continue
+            chain = [m.group(1)]
+            cur = m.group(1)
+            for _ in range(8):
+                ds = defs_of(fn, cur)
+                if len(ds) != 1:
+                    break
+                d = ds[0]
+                mm = re.match(r"^(?:move|copy) (_\d+)$", d) or re.match(r"^(?:move|copy) \(\((_\d+) as Continue\)\.0: bool\)$", d) \
+                    or re.match(r"^(?:move|copy) \(\((_\d+) as Ok\)\.0: bool\)$", d)
+                if mm:
+                    cur = mm.group(1)
+                    chain.append(cur)
+                    continue
+                mm = re.match(r"^<.* as Try>::branch\((?:move|copy) (_\d+)\)", d) or re.match(r"^Result::<.*>::map_err::<.*>\((?:move|copy) (_\d+),", d)
+                if mm:
+                    cur = mm.group(1)
+                    chain.append(cur)
+                    continue
+                if re.match(r"^<DB as primitives::db::Database>::has_storage\(", d):
+                    term, why = "under", "result of <DB as Database>::has_storage(created_address)"
+                break
+        v, model, detail = duo.check(["(declare-const under Bool)", "(declare-const unk Bool)"], [f"(not (= {term} under))"], want_model_of=("under",))
+        samples.append(f"{fname}: address_has_storage argument is {why} -> {v}")
+        log(f"[e3] {samples[-1]}")
+        if v == "sat":
+            failures.append(dict(id=f"{fname}-has_storage-arg", description=f"{fname}: the storage flag handed to the collision check is not the database's has_storage answer ({why})"))
+        elif v != "unsat":
+            inconcl.append(f"{fname}: {detail}")
+    q, tm = duo.queries, duo.time
+    duo.close()
+    res = dict(queries=q, solver_s=tm, engine="mir impl/dataflow scan -> smtlib (z3 4.8.12 + cvc5 1.0)", bounds="; ".join(samples),
+               detail="per database layer: the has_storage answer must equal the wrapped source's answer; per create path: the collision flag must be that answer")
+    if inconcl:
+        res.update(status="inconclusive", reason="; ".join(inconcl)[:500])
+    elif failures:
+        res.update(status="fail", failures=failures, reason=failures[0]["description"][:300])
+    else:
+        res.update(status="pass")
+    return res
